@@ -108,6 +108,7 @@ package boltz
 //@   ensures[failed-atomically] old(bucket.Err) == nil && bucket.Err != nil ==> bktHas[bucket.Bucket] == old(bktHas[bucket.Bucket])
 // assumed: reading a row's current set values changes nothing that existed before
 //@ func (*setIndex).getCurrentValues
+//@   trusted reads the row's current set values through the symbol's runtime cursor; assumed to write nothing another function can see
 //@   pure
 // before the write: the row's current set values are remembered for this index and the index is not touched
 //@ func (*setIndex).ProcessBeforeUpdate
